@@ -964,3 +964,19 @@ Proof.
       split; [exact Hcf|]. now exists u0.
     + injection Hsp as <- <- <-. apply cut_last_none in Hcl. now split.
 Qed.
+
+(** ** any constructor argument, and attribute reads *)
+
+(** [Version(v)] for None / str / int: [str(v)] is what gets parsed *)
+Theorem version_new_any v : version_new v = to_result (py_str v) (spec_decompose (py_str v)).
+Proof. exact (set_full_spec (py_str v)). Qed.
+
+(** reading the five attributes returns the stored slots; debian_version is an
+    alias of debian_revision; any other name is not served by [__getattr__]'s table *)
+Theorem getattr_fields st :
+  getattr st s_full_version = Some (Some (st_full st))
+  /\ getattr st a_epoch = Some (st_epoch st)
+  /\ getattr st s_upstream_version = Some (st_up st)
+  /\ getattr st s_debian_revision = Some (st_rev st)
+  /\ getattr st s_debian_version = Some (st_rev st).
+Proof. repeat split. Qed.
